@@ -532,7 +532,7 @@ def run(ctx, drv):
         cnt, complete = exhaustive_trees(ctx, drv)
         ctx.notes["exhaustive_trees_n<=5_x_orders"] = {"cases": cnt, "complete": complete}
         ctx.exhaustive = complete
-    ncases = 6000 if ctx.tier == "quick" else 60000
+    ncases = 6000 if ctx.tier == "quick" else 300000
     for i in range(ncases):
         if ctx.time_left() < 10:
             break
